@@ -29,9 +29,12 @@ func notFoundDiscipline(c *eng.Ctx, rule string) {
 		}
 		// creation / whole-secret deletion are exempt (documented semantics)
 		exempt := false
-		for _, w := range k.forward(f) {
-			if w.Loc == "kv.secrets" {
-				exempt = true
+		for g := range p.CallGraph().Reach(f, nil) {
+			// (the insert / delete may sit in a helper the accessor dispatches to)
+			for _, w := range k.forward(g) {
+				if w.Loc == "kv.secrets" {
+					exempt = true
+				}
 			}
 		}
 		if exempt {
